@@ -25,6 +25,21 @@ Theorem C09_nj_structure :
 Proof. exact nj_valid_rows. Qed.
 Print Assumptions C09_nj_structure.
 
+(* non-vacuity / sanity: the matrix of lingpy's own docstring and test (test_upgma):
+   taxa German, Swedish, Icelandic, English, Dutch = 0..4; the model's tree is the
+   documented '((Swedish,Icelandic),(English,(German,Dutch)));' and both tree
+   matrices are valid *)
+Example C09_structure_docstring_instance :
+  let m : mat := [[0; 1#2; 67#100; 4#5; 1#5]; [1#2; 0; 2#5; 7#10; 3#5]; [67#100; 2#5; 0; 4#5; 4#5];
+                  [4#5; 7#10; 4#5; 0; 3#10]; [1#5; 3#5; 4#5; 3#10; 0]]%Q in
+  let nn a b := NNode [(a, 0%Q); (b, 0%Q)] in
+  valid_rowsb 5 (upgma_rows 5 (dm m)) = true /\ valid_rowsb 5 (nj_rows m) = true /\
+  match upgma_tree 5 (dm m) with
+  | Some t => nt_eqb false 0 (nt_of_tree t) (nn (nn (NLeaf 1) (NLeaf 2)) (nn (NLeaf 3) (nn (NLeaf 0) (NLeaf 4))))
+  | None => false
+  end = true.
+Proof. cbv zeta. repeat split; vm_compute; reflexivity. Qed.
+
 (* any valid tree matrix (the models', the implementation's once the checker
    valid_rowsb accepts it) yields a Newick tree - binary by construction - whose
    leaves are the taxa 0..n-1, each exactly once *)
